@@ -171,7 +171,7 @@ theorem reprScalar_eq_calls (k : ScalarS) :
 
 /-- the length props of a reachable str schema: `len` excludes `min_len`/`max_len`, and a fixed value
     is consistent with each of them -/
-def LenOK (v : Option Str) (L : LenP) : Prop :=
+def StrLenInv (v : Option Str) (L : LenP) : Prop :=
   (L.len.isSome → L.minLen = none ∧ L.maxLen = none) ∧
   ∀ s, v = some s →
     (∀ n, L.len = some n → (s.length : Int) = n) ∧
@@ -188,7 +188,7 @@ def Inv : ScalarS → Prop
     (∀ x f, v = some x → mx = some f → PyFloat.ge f x = true) ∧
     (∀ n, p = some n → 1 ≤ n ∧ n ≤ 15)
   | .str v L al sub pat =>
-    (pat.isSome → L = {} ∧ al = none ∧ sub = none) ∧ LenOK v L ∧
+    (pat.isSome → L = {} ∧ al = none ∧ sub = none) ∧ StrLenInv v L ∧
     (∀ s l, v = some s → al = some l → s.all (fun c => l.contains c) = true) ∧
     (∀ s x, v = some s → sub = some x → isInfixB x s = true)
   | .uuid4 v => ∀ i ver, v = some (i, ver) → ver = 4
@@ -224,24 +224,24 @@ theorem strDeclMax_ok (v : Option Str) (L L' : LenP) (a : Arg) (h : strDeclMax v
   all_goals (try (simp at h; done))
   all_goals (simp at h; subst h; exact ⟨_, by assumption, rfl, by simp_all; try omega⟩)
 
-theorem strLen_ok (v : Option Str) (L' : LenP) (a b : Arg) (h : strLen v {} a b = .ok L') : LenOK v L' := by
+theorem strLen_ok (v : Option Str) (L' : LenP) (a b : Arg) (h : strLen v {} a b = .ok L') : StrLenInv v L' := by
   unfold strLen declLenDispatch at h
   split at h
   · obtain ⟨n, _, rfl, hn⟩ := strDeclMax_ok _ _ _ _ h
-    simp_all [LenOK]
+    simp_all [StrLenInv]
   · split at h
     · obtain ⟨n, _, rfl, hn⟩ := strDeclLen_ok _ _ _ _ h
-      simp_all [LenOK]
+      simp_all [StrLenInv]
     · split at h
       · obtain ⟨n, _, rfl, hn⟩ := strDeclMin_ok _ _ _ _ h
-        simp_all [LenOK]
+        simp_all [StrLenInv]
       · cases h1 : strDeclMin v {} a with
         | error e => simp [h1, bind, Except.bind] at h
         | ok L1 =>
           simp only [h1, bind, Except.bind] at h
           obtain ⟨n, _, rfl, hn⟩ := strDeclMin_ok _ _ _ _ h1
           obtain ⟨m, _, rfl, hm⟩ := strDeclMax_ok _ _ _ _ h
-          simp_all [LenOK]
+          simp_all [StrLenInv]
 
 
 theorem inv_step_str_len (v : Option Str) (L : LenP) (al sub : Option Str) (pat : Option Pat) (a b : Arg) (k' : ScalarS)
@@ -297,7 +297,7 @@ theorem inv_step_call (k k' : ScalarS) (a : Arg) (hi : Inv k) (h : declScalar k 
     rw [str_call] at h
     repeat' split at h
     all_goals (try (simp at h; done))
-    all_goals (simp at h; subst h; simp_all [Inv, anySet_false_iff, LenOK])
+    all_goals (simp at h; subst h; simp_all [Inv, anySet_false_iff, StrLenInv])
   | bool v =>
     cases a <;> (try (cases h; done))
     rename_i x
@@ -428,7 +428,7 @@ theorem inv_run (ops : List Op) : ∀ (k k' : ScalarS), Inv k → runScalar k op
       exact ih k1 k' (inv_step k k1 op hi h1) h
 
 theorem inv_fresh (k : ScalarS) : Inv (freshOf k) := by
-  cases k <;> simp [freshOf, Inv, LenOK]
+  cases k <;> simp [freshOf, Inv, StrLenInv]
 
 theorem runScalar_append (a : List Op) : ∀ (k : ScalarS) (b : List Op),
     runScalar k (a ++ b) = bindE (runScalar k a) (fun k' => runScalar k' b) := by
@@ -566,7 +566,7 @@ theorem if_lt_neg {α} (a b : Int) (h : a ≤ b) (x y : α) : (if b < a then x e
   if_neg (by omega)
 
 theorem stage_str_len (v : Option Str) (L : LenP) (al sub : Option Str) (pat : Option Pat)
-    (h : pat.isSome → L = {}) (hL : LenOK v L) :
+    (h : pat.isSome → L = {}) (hL : StrLenInv v L) :
     runScalar (.str v {} al sub pat) (lenCall L) = .ok (.str v L al sub pat) := by
   cases pat with
   | some p => rw [h rfl]; simp [lenCall, runScalar]
